@@ -91,7 +91,8 @@ class World:
 
 
 def units(tier):
-    return [["H", i] for i in range(len(MENU))]
+    # (a target used as a *source* can also come first: what is added to it later must not reach where it was added)
+    return [["H", i] for i in range(len(MENU) + len(MENU_NESTED))]
 
 
 def run_unit(unit, tier):
@@ -106,12 +107,12 @@ def run_unit(unit, tier):
         if ok and len(hist) < depth:
             for nxt in range(len(MENU)):
                 stack.append(hist + [nxt])
-            if len(hist) == 1:
+            if len(hist) == 1 or tier == "thorough":
                 for nxt in range(len(MENU_NESTED)):
                     stack.append(hist + [len(MENU) + nxt])
         if ok and len(hist) >= 2:
             res.count("nontrivial")
-    res.sample({"history": [list(MENU[first])], "menu_index": [first]})
+    res.sample({"history": [list((MENU + MENU_NESTED)[first])], "menu_index": [first]})
     return res
 
 
@@ -188,6 +189,28 @@ def run_history(res, hist):
                     res.violation("behaviour:%s" % ("target" if k == s else "other-target"),
                                   "%s validates %r differently from a schema built afresh from its reference rule list" % (k, d),
                                   case, observed=a, expected=b)
+                    return False
+        # (3b) ... and like the reference model of that rule list: verdicts, failing paths, cast data; the caller's document
+        # is left as it was (an oracle that does not run the code under test, so that casts are judged too)
+        for k in TARGETS:
+            for d in DOCS:
+                want = ref.schema_validate(("schema", w.model[k]), d)
+                if not all(t["exact"] for t in want["tests"]):
+                    continue
+                dd = fresh(d)
+                res.count("transitions")
+                try:
+                    vd = w.obj[k].validate(dd)
+                    got = (vd.is_valid, vd.num_failures, vd.num_rules_tested, vsnap(vd.cast_data),
+                           tuple(sorted((tuple(f.path) for rt in vd.rule_tests for f in rt.failures), key=repr)))
+                except BaseException as e:
+                    got = ("raises", type(e).__name__)
+                exp = (want["valid"], want["num_failures"], want["num_tested"], vsnap(want["cast_data"]),
+                       tuple(sorted((cp for t in want["tests"] for cp, _ in t["failures"]), key=repr)))
+                if got != exp or vsnap(dd) != vsnap(d):
+                    res.violation("reference:%s" % ("target" if k == s else "other-target"),
+                                  "%s validates %r differently from the reference model of its rule list (or changes the document)" % (k, d),
+                                  case, observed=(got, dd), expected=(exp, d))
                     return False
         # (4) S judges a document as before plus T's judgement of what lies at R (cast-free sources)
         if t not in TARGETS and not any(r[3] for r in INIT[t]) and not any(r[3] for r in w.model[s]):
